@@ -22,6 +22,9 @@ IsEv(e) == l <= Len(Rec) /\ R.ev = e /\ l' = l + 1
 NonItems == {<<"nohdr">>, <<"section">>, <<"nocomment">>}
 Aiger == {"aag", "aig", "aag_parse", "aig_parse"}
 
+\* a position lies on the token lo..hi (hi: one past its last byte; an empty token is the position lo itself)
+OnToken(p, lo, hi) == p >= lo /\ (p < hi \/ p = lo)
+
 TReset ==
   /\ IsEv("reset")
   /\ active' = (R.kind = "parser" /\ R.parser \in Aiger /\ ~R.faulty)
@@ -48,7 +51,7 @@ TEnd ==
   /\ \E r \in {ReadLoc(vis, binary, ty)} :
        /\ failed = "" => r[1] = "ok" /\ (stream => r[2] = items)
        /\ failed = "syntax" => /\ r[1] = "bad"
-                               /\ gupos >= r[3] /\ gupos <= r[4]
+                               /\ OnToken(gupos, r[3], r[4])
                                /\ (stream => r[2] = items)
   /\ UNCHANGED <<active, vis, binary, stream, ty, items, failed, gupos>>
 
